@@ -66,6 +66,10 @@ func c10Defects() []c10Defect {
 	echo := func(args ...world.Arg) *world.Sel { return al(world.F("echo").WithArgs(args...)) }
 	return []c10Defect{
 		{Name: "undefined-field", Make: func(*world.TypeDef) *world.Sel { return al(world.F("zq7")) }, Names: "zq7", NoCall: "field:zq7"},
+		// a field the OBJECT defines, selected inside a fragment on an interface it implements / a union it belongs to that does
+		// not define it (under an object-typed parent): the fragment's condition is the container of what it holds
+		{Name: "object-field-inside-interface-fragment", Needs: "in-named", Make: func(*world.TypeDef) *world.Sel { return world.In("Named", al(world.F("id"))) }, Names: "id", NoValue: true},
+		{Name: "object-field-inside-union-fragment", Needs: "in-ab", Make: func(*world.TypeDef) *world.Sel { return world.In("AB", al(world.F("id"))) }, Names: "id", NoValue: true},
 		// undefined fields whose names start like the meta-fields
 		{Name: "undefined-field-reserved-prefix", Make: func(*world.TypeDef) *world.Sel { return al(world.F("__zq7")) }, Names: "__zq7", NoCall: "field:__zq7"},
 		{Name: "undefined-field-like-a-meta-field", Make: func(*world.TypeDef) *world.Sel { return al(world.F("__typeName")) }, Names: "__typeName", NoCall: "field:__typeName"},
@@ -195,6 +199,9 @@ func runC10(c *core.Ctx) {
 					continue
 				}
 				if df.Needs == "i" && td.Field("i") == nil {
+					continue
+				}
+				if (df.Needs == "in-named" && !(td.Kind == world.KObject && s.Applies("Named", td.Name))) || (df.Needs == "in-ab" && !(td.Kind == world.KObject && s.Applies("AB", td.Name))) {
 					continue
 				}
 				key := fmt.Sprintf("%s|%d|%s", baseText, st.idx, df.Name)
